@@ -9,12 +9,12 @@ CONSTANTS
   MaxOutsSet = {0, 1, 2, 500}
   MinConfs = {0, 1, 2, 3}
   FlowsE = {"send", "late", "invoice"}
-  ModA = 300
-  ModS = 60
-  ModE = 200
+  ModA = 200
+  ModS = 40
+  ModE = 130
   LateFactor = 2
   Seed = 1
-  NWide = 6000
+  NWide = 8000
   CheckFixed = TRUE
   CexScale = 4
 INIT Init
